@@ -100,6 +100,9 @@ func newC12State(c *c12Case) (*c12State, string) {
 	if p := guard(func() { s.pl, err = lexer.Upgrade(&sliceLexer{toks: s.toks}, el...) }); p != "" {
 		return nil, "Upgrade: " + p
 	}
+	for i := range el {
+		el[i] = 12345 // the caller's slice is the caller's: the elision set was fixed when Upgrade returned
+	}
 	if err != nil {
 		return nil, "Upgrade: " + err.Error()
 	}
